@@ -222,7 +222,7 @@ impl Monitor for C01 {
     }
     fn streams(&self, tier: Tier, budget: f64) -> Vec<Stream> {
         let n = match tier {
-            Tier::Quick => 120_000,
+            Tier::Quick => 400_000,
             Tier::Thorough => 3_000_000,
         };
         vec![
